@@ -271,4 +271,7 @@ def run(ctx) -> Report:
         "and compared with the estimate (estimate >= true degree)."
     )
     rep.assumptions = ["affine simplex cells (degree-reducing derivative rule applies)", "generic coefficients: no accidental cancellation except structural ones present in the expression", "one representative spatial direction for total degree"]
+    from ..memokey import memo_rule
+
+    memo_rule(ctx, rep, "C18-key", ['ufl.algorithms.estimate_degrees'])
     return rep
